@@ -15,7 +15,7 @@ RULE = ("universes of 3-16 path-backed entities whose free names separate whole-
         "materialised as a list, as a local file tree and through FindInAll's configured sources; 4 searches per universe with '>' at any "
         "position (directly or through a filter), optional second '>' further right, '*', comma lists, aliases, '**' elsewhere; plus "
         "sid.get_last(key) for 2 entities x every key. Each Finder is compared with the reference 'greatest remaining segments per "
-        "group' computed over that Finder's own data (list entries / existing path-backed entities / configured sources). "
+        "group' computed over that Finder's own data (list entries / existing path-backed entities / configured sources); one case in four asks with as_sid=False. "
         "non-trivial = some group has >= 2 candidates and whole-string order differs from per-segment order, or >= 2 typed forms; "
         "distinct = (universe, search)")
 ASSUMPTIONS = [
@@ -38,7 +38,7 @@ def sources(model):
     return _sources["s"]
 
 
-ORDER_NAMES = ["x", "x-1", "x.b", "x+", "x_y", "y", "x0"]
+ORDER_NAMES = ["x", "x-1", "x.b", "x+", "x_y", "y", "x0", "X", "x9", "x10"]
 
 
 @st.composite
@@ -60,7 +60,8 @@ def cases(draw):
     for _ in range(2):
         t, f = ents[draw(st.integers(0, len(ents) - 1))]
         probes.append([t, f])
-    return {"entities": [[t, f] for t, f in ents], "searches": searches, "probes": probes}
+    return {"entities": [[t, f] for t, f in ents], "searches": searches, "probes": probes,
+            "as_str": draw(st.integers(0, 3)) == 0}
 
 
 def strings(res):
@@ -137,7 +138,13 @@ def evaluate(case) -> Outcome:
                 out.label("order-sensitive")
 
         for name, (mk, _) in finders.items():
-            ok, got = call(lambda: [str(x) for x in mk().find(s)])
+            if case.get("as_str"):
+                ok, got = call(lambda: list(mk().find(s, as_sid=False)))
+                if ok and not all(isinstance(x, str) for x in got):
+                    out.add(f"C09/{name}/as_sid-false-not-strings", f"{name}.find({s!r}, as_sid=False) -> {got!r}")
+                    continue
+            else:
+                ok, got = call(lambda: [str(x) for x in mk().find(s)])
             out.evaluations += 1
             if not ok:
                 out.add(f"C09/{name}/raises/{exc_sig(got)}", f"{name}.find({s!r}) raised {got!r}; entities {L}")
